@@ -409,10 +409,6 @@ func (ss *Package) messageProperties(parent RootSchema, src protoreflect.Message
 			if err != nil {
 				return nil, patherr.Wrap(err, string(field.Name()))
 			}
-			if _, isAny := fieldSchema.(*AnyField); isAny {
-				// j5reflect and the JSON codec have no array of Any
-				return nil, patherr.Wrap(fmt.Errorf("arrays of %s are not supported", field.Message().FullName()), string(field.Name()))
-			}
 
 			arrayField.Schema = fieldSchema
 
@@ -468,10 +464,6 @@ func (ss *Package) messageProperties(parent RootSchema, src protoreflect.Message
 			valueSchema, err := ss.buildSchema(childContext, field.MapValue(), childExt)
 			if err != nil {
 				return nil, patherr.Wrap(err, string(field.Name()))
-			}
-			if _, isAny := valueSchema.(*AnyField); isAny {
-				// j5reflect and the JSON codec have no map of Any
-				return nil, patherr.Wrap(fmt.Errorf("maps of %s are not supported", field.MapValue().Message().FullName()), string(field.Name()))
 			}
 
 			mapField.Schema = valueSchema
